@@ -19,7 +19,7 @@ ASSUMPTIONS = [
     "planting includes editing the public children list directly (the planted unknown element then has no parent link, or a stale one)",
     "removed subtree roots = nodes no longer reachable from the root that no other unreachable node still lists",
 ]
-REQUIRED = ["prunes_at_inner_node", "prunes", "prunes_strict", "prunes_removing", "offender_below_parent_with_own_error", "second_prunes", "model_agreements",
+REQUIRED = ["typed_table_prunes", "prunes_at_inner_node", "prunes", "prunes_strict", "prunes_removing", "offender_below_parent_with_own_error", "second_prunes", "model_agreements",
             "trees_with_metadata"]
 EXHAUSTIVE = {"quick": False, "thorough": False}
 
@@ -342,6 +342,26 @@ def run(ctx, params):
         host.add_child(Node(name, content=rng.choice([None, "x"])), rng.randint(0, len(host.children)))
         ctx.case(judge, ctx, t, j % 2 == 0, ["every-known-name:" + name])
         emlkit.discard(t)
+    # every entry of the lexical class tables once on a node of its type, below a parent that allows it: pruning comes back whatever
+    # the content checkers make of the value
+    from vlib.models import content as C
+    for rule_name in emlkit.rule_names():
+        kinds = list(emlkit.rules_table()[rule_name][2].get("content_rules", []))
+        elements = emlkit.elements_of(rule_name)
+        pool = (C.URIS + UNUSUAL_URIS if "uriContent" in kinds else C.TIMES if "timeContent" in kinds else C.DATES if "yearDateContent" in kinds
+                else C.BOUNDS + C.COMMON[40:60] if any(k.startswith("float") or k == "intContent" for k in kinds) else None)
+        if not pool or not elements:
+            continue
+        for j, v in enumerate(pool):
+            if j % 3 == 0:
+                root = Node("dataset")
+                root.add_child(Node("title", content="typed table"))
+                root.add_child(Node(elements[j % len(elements)], content=v))
+            else:
+                root = Node(elements[j % len(elements)], content=v)       # the typed element is the root of what is pruned
+            ctx.case(judge, ctx, root, j % 2 == 0, ["typed-table:" + rule_name])
+            ctx.count("typed_table_prunes")
+            emlkit.discard(root)
     c = treegen.corpus_tree()
     if c is not None:
         for strict in (False, True):
